@@ -87,6 +87,44 @@ pub fn debug_list_of_courses(courses: &[Course]) -> String {
         .join("\n")
 }
 
+/// Check that all cross references (course choices, course instructors) of a given
+/// courses/participants data structure are valid and the courses' size limits are consistent.
+///
+/// In contrast to `assert_data_consitency()`, this function is meant for validating user input: It
+/// returns an error message to be displayed to the user, instead of panicking.
+pub fn check_data_consistency(
+    participants: &[Participant],
+    courses: &[Course],
+) -> Result<(), String> {
+    for (i, p) in participants.iter().enumerate() {
+        for choice in p.choices.iter() {
+            if choice.course_index >= courses.len() {
+                return Err(format!(
+                    "Course choice {} of {}. participant ({}) is not a valid course index.",
+                    choice.course_index, i, p.name
+                ));
+            }
+        }
+    }
+    for (i, c) in courses.iter().enumerate() {
+        for instr in c.instructors.iter() {
+            if *instr >= participants.len() {
+                return Err(format!(
+                    "Instructor {} of {}. course ({}) is not a valid participant index.",
+                    instr, i, c.name
+                ));
+            }
+        }
+        if c.num_min > c.num_max {
+            return Err(format!(
+                "Min size ({}) > max size ({}) of {}. course ({}).",
+                c.num_min, c.num_max, i, c.name
+            ));
+        }
+    }
+    Ok(())
+}
+
 /// Assert that a given courses/participants data structure is consistent (in terms of object's
 /// indexes and cross referencing indexes)
 pub fn assert_data_consitency(participants: &[Participant], courses: &[Course]) {
